@@ -13,6 +13,7 @@ import (
 	"strconv"
 	"strings"
 	"sync"
+	"sync/atomic"
 	"testing/synctest"
 	"time"
 
@@ -78,6 +79,11 @@ type SchedParams struct {
 	DrainFirst bool    `json:"drain_first,omitempty"` // prefer pending socket writes over everything else (writer goroutines keep up with producers)
 	MaxSteps   int     `json:"max_steps"`
 	MaxSimSec  int     `json:"max_sim_sec"`
+	// Free: parallel-burst mode (C20, race detector). Locks, socket writes, dials and accepts are NOT scheduling
+	// points: lal's goroutines contend on the real mutexes on all cores, and the driver applies every enabled
+	// delivery at once between two quiescent points. Which inputs form a burst stays seeded; the interleaving
+	// inside a burst is left to the Go scheduler (this is the one place the simulator gives up schedule control).
+	Free bool `json:"free,omitempty"`
 }
 
 type lockReq struct {
@@ -91,6 +97,8 @@ type lockReq struct {
 
 // Stats counts what actually happened in a run (measured, for evidence).
 type Stats struct {
+	Bursts       int            `json:"bursts,omitempty"`
+	BurstMax     int            `json:"burst_max,omitempty"`
 	Steps        int            `json:"steps"`
 	Grants       int            `json:"grants"`
 	Deliveries   int            `json:"deliveries"`
@@ -304,6 +312,9 @@ func (k *Kernel) anonName(g uint64) string {
 // ---- cooperative mutexes ---------------------------------------------------------------------------------------------
 
 func (k *Kernel) lockHook(m interface{}, site string) {
+	if k.P.Free {
+		return
+	}
 	g := goid()
 	req := &lockReq{m: m, gid: g, site: site, ch: make(chan struct{})}
 	k.mu.Lock()
@@ -323,6 +334,9 @@ func (k *Kernel) lockHook(m interface{}, site string) {
 }
 
 func (k *Kernel) unlockHook(m interface{}) {
+	if k.P.Free {
+		return
+	}
 	k.mu.Lock()
 	if r := k.owners[m]; r != nil {
 		delete(k.owners, m)
@@ -371,6 +385,9 @@ type writeReq struct {
 // parkDial parks the calling goroutine until the driver lets its outbound connection attempt happen
 // (so that stub factories never run concurrently with each other or with the driver).
 func (k *Kernel) parkDial(addr string) {
+	if k.P.Free {
+		return
+	}
 	r := &writeReq{dial: addr, ch: make(chan struct{}), gid: goid()}
 	k.mu.Lock()
 	k.writeReqs = append(k.writeReqs, r)
@@ -381,6 +398,9 @@ func (k *Kernel) parkDial(addr string) {
 
 // parkWrite parks the calling goroutine until the driver grants its write on c.
 func (k *Kernel) parkWrite(c *Conn) {
+	if k.P.Free {
+		return
+	}
 	r := &writeReq{c: c, ch: make(chan struct{}), gid: goid()}
 	k.mu.Lock()
 	k.writeReqs = append(k.writeReqs, r)
@@ -391,6 +411,9 @@ func (k *Kernel) parkWrite(c *Conn) {
 
 // parkUDPWrite parks the calling goroutine until the driver grants its datagram write on s.
 func (k *Kernel) parkUDPWrite(s *UDPSock) {
+	if k.P.Free {
+		return
+	}
 	r := &writeReq{u: s, ch: make(chan struct{}), gid: goid()}
 	k.mu.Lock()
 	k.writeReqs = append(k.writeReqs, r)
@@ -701,7 +724,7 @@ func (k *Kernel) apply(a action) {
 	case "deliver":
 		n := a.conn.deliver(k)
 		k.Stats.Deliveries++
-		k.Stats.BytesIn += int64(n)
+		atomic.AddInt64(&k.Stats.BytesIn, int64(n))
 		k.lastGid = 0
 	case "close":
 		a.conn.deliverFin()
@@ -792,6 +815,21 @@ func (k *Kernel) StepOnce() bool {
 	}
 	if k.step > k.P.MaxSteps {
 		k.Abort("step budget exhausted")
+	}
+	if k.P.Free {
+		// a burst: every enabled delivery / accept / close at once, in a seeded order
+		for i := len(acts) - 1; i > 0; i-- {
+			j := k.Rng.Intn(i + 1)
+			acts[i], acts[j] = acts[j], acts[i]
+		}
+		for _, a := range acts {
+			k.apply(a)
+		}
+		k.Stats.Bursts++
+		if len(acts) > k.Stats.BurstMax {
+			k.Stats.BurstMax = len(acts)
+		}
+		return true
 	}
 	a := k.choose(acts)
 	k.apply(a)
